@@ -208,6 +208,15 @@ KERNELS = [
     dict(name='validateCommonAsserts', kind='asserts', file='torf/_torrent.py', func='Torrent.validate', block=0),
     dict(name='validateSingleAsserts', kind='asserts', file='torf/_torrent.py', func='Torrent.validate', block='single'),
     dict(name='validateFileAsserts', kind='asserts', file='torf/_torrent.py', func='Torrent.validate', block='file'),
+    dict(name='validateTierAsserts', kind='asserts', file='torf/_torrent.py', func='Torrent.validate', block="('announce-list', i)"),
+    dict(name='validateTierUrlAsserts', kind='asserts', file='torf/_torrent.py', func='Torrent.validate', block="('announce-list', i, j)"),
+    dict(name='validatePathCompAsserts', kind='asserts', file='torf/_torrent.py', func='Torrent.validate', block="('info', 'files', i, 'path', j)"),
+    # --- the branch structure of Torrent.validate after the shared rules (C07): which arm of the if / elif chain is taken
+    #     (0 = pieces empty, 1 = length not a multiple of 20, 2 = both 'length' and 'files', 3 = single-file, 4 = multi-file,
+    #     5 = the else arm when the chain has one / falls through)
+    dict(name='validateBranch', file='torf/_torrent.py', func='Torrent.validate', pick=('if-chain-branch', "len(info['pieces']) == 0"),
+         atoms={"len(info['pieces'])": 'plen', "'length' in info": 'has_length', "'files' in info": 'has_files'},
+         params=[('plen', 'Int'), ('has_length', 'Bool'), ('has_files', 'Bool')], ret='Int'),
     # --- the parameter tables of magnet URIs (C13): literal tuples of names; an element that is itself a tuple
     #     contributes its first component
     dict(name='magnetKnownParameters', kind='strings', file='torf/_magnet.py', func='Magnet',
@@ -333,6 +342,22 @@ def _pick(fn, pick):
         if len(hits) != 1:
             raise CannotTranslate(f'{len(hits)} class-level assignments to {pick[1]}')
         return hits[0].value
+    if kind == 'if-chain-branch':
+        # the top-level `if t0: … elif t1: … [else: …]` chain whose first test has the given text  →  the number of the arm taken
+        hits = [n for n in fn.body if isinstance(n, ast.If) and ast.unparse(n.test) == pick[1]]
+        if len(hits) != 1:
+            raise CannotTranslate(f'{len(hits)} top-level if-chains starting with {pick[1]}')
+        tests, node = [], hits[0]
+        while True:
+            tests.append(node.test)
+            if len(node.orelse) == 1 and isinstance(node.orelse[0], ast.If):
+                node = node.orelse[0]
+            else:
+                break
+        expr = ast.Constant(value=len(tests))
+        for i in range(len(tests) - 1, -1, -1):
+            expr = ast.IfExp(test=tests[i], body=ast.Constant(value=i), orelse=expr)
+        return expr
     if kind == 'if-chain-assign':
         # `if c1: v = e1 elif c2: v = e2 … else: v = en`  →  the conditional expression it computes
         def chain(node):
@@ -1473,8 +1498,10 @@ def translate_asserts(repo, k):
         pick = allruns[:1]
     elif k['block'] == 'single':
         pick = [r for r in allruns if ast.unparse(r[0].args[1]) == "('info', 'length')"]
-    else:
+    elif k['block'] == 'file':
         pick = [r for r in allruns if ast.unparse(r[0].args[1]).startswith("('info', 'files', i)")]
+    else:
+        pick = [r for r in allruns if ast.unparse(r[0].args[1]) == k['block']]
     if len(pick) != 1:
         raise CannotTranslate(f'{len(pick)} runs of assert_type calls for block {k["block"]}')
     rows = [entry(c) for c in pick[0]]
